@@ -37,6 +37,7 @@ struct FPlan
     int short_write_pct = 0, eintr_pct = 0;
     uint64_t fault_seed = 1;
     std::vector<int> foreign; // indices into the foreign-name menu
+    int obstacle = 0; // >0: a directory named like rotated file <index> of the first day exists (C05, C10)
     std::string sibling; // base name of a second rotating sink working in the same directory (C06), or empty
     int start_ms_of_day = 12 * 3600 * 1000;
     std::vector<FOp> ops;
